@@ -18,14 +18,20 @@
 (*                                  first / the repeated run (a fresh      *)
 (*                                  sampler, same arguments, same seed)    *)
 (*            model_pre, model_post digests of the caller's model          *)
+(*            hist                  <<"pristine" | "solved", "solved">>:   *)
+(*                                  had the caller's model been optimised  *)
+(*                                  before the first / the repeated run    *)
+(*            msg                   for a ValueError: which documented     *)
+(*                                  refusal (single_point / two_directions)*)
 (*            pf, pv]               validate() codes of the probe points   *)
 (*                                  in flux / variable space               *)
 (* A code is a sequence of one-character strings (<<"-">> = not asked).    *)
 (*                                                                         *)
 (* One TLC state per consumed run.  EVERY returned row is judged by        *)
 (* SxInPolytope against the instance TLC generated -- nothing is read from *)
-(* the cobra model for that.  Failing clause sets are printed as JSON      *)
-(* verdict lines; the TLC run itself never fails.                          *)
+(* the cobra model for that.  One JSON verdict line is printed per failing *)
+(* clause of a run (with its own root-cause tags); the TLC run itself      *)
+(* never fails.                                                            *)
 (***************************************************************************)
 EXTENDS SamplerOps, Json, IOUtils, TLCExt
 
@@ -48,13 +54,20 @@ RefusalExpected ==
 \* ---- probes
 FluxProbeBad(r) ==
   {i \in 1..Len(T.probes) : Asked(r.pf[i]) /\ ~SxValidateAgrees(r.pf[i], SxInFluxPolytope(X, T.probes[i].flux))}
+\* letters, flux space.  A bound / balance violation MUST show its letter; a letter MAY only appear when a
+\* violation of its kind is possible -- where "its kind" includes the user rows (lower side -> 'l', upper
+\* side -> 'u', equality -> 'e'), so that the clause holds for a validate() that looks at them and for
+\* one that does not (recorded finding: it does not).
+UserLowerFlux(p) == {SxJudge(SxDot(X.U[i].coef, p), ULoFlux(X, X.U[i]) * SxScale, SxBig, SxAbsSum(X.U[i].coef)) : i \in 1..Len(X.U)}
+UserUpperFlux(p) == {SxJudge(SxDot(X.U[i].coef, p), -SxBig, UHiFlux(X, X.U[i]) * SxScale, SxAbsSum(X.U[i].coef)) : i \in 1..Len(X.U)}
+MustMay(code, ch, must, may) == (must = "yes" => HasLetter(code, ch)) /\ (HasLetter(code, ch) => may # "no")
 FluxProbeLetters(r) ==
   \A i \in 1..Len(T.probes) : Asked(r.pf[i]) =>
      LET p == T.probes[i].flux IN
      /\ SxCodeWellFormed(r.pf[i])
-     /\ LetterAgrees(r.pf[i], "l", SxLetterL(X, p))
-     /\ LetterAgrees(r.pf[i], "u", SxLetterU(X, p))
-     /\ LetterAgrees(r.pf[i], "e", SxLetterE(X, p))
+     /\ MustMay(r.pf[i], "l", SxLetterL(X, p), SxSome(SxFluxLower(X, p) \cup UserLowerFlux(p) \cup UserUpperFlux(p)))
+     /\ MustMay(r.pf[i], "u", SxLetterU(X, p), SxSome(SxFluxUpper(X, p) \cup UserLowerFlux(p) \cup UserUpperFlux(p)))
+     /\ MustMay(r.pf[i], "e", SxLetterE(X, p), SxSome(SxFluxBalance(X, p) \cup SxFluxUser(X, p)))
 VarProbeBad(r) ==
   {i \in 1..Len(T.probes) : Asked(r.pv[i]) /\ T.probes[i].vars # <<>> /\
      ~(SxCodeWellFormed(r.pv[i]) /\ SxValidateAgrees(r.pv[i], SxInVarPolytope(X, T.probes[i].vars)))}
@@ -94,6 +107,9 @@ CommonTags(r) ==
   \cup {IF dim = 0 THEN "dim0" ELSE IF dim = 1 THEN "dim1" ELSE "dim2plus"}
 Tags(r, clause) ==
   CommonTags(r)
+  \* the two runs with equal arguments saw the caller's model in different solver states
+  \cup (IF clause = "same_seed_same_samples" /\ r.hist[1] # r.hist[2]
+        THEN {"caller_model_solved_between_the_two_runs"} ELSE {})
   \cup (IF clause = "validate_agrees_on_flux_probes" /\
            \A i \in FluxProbeBad(r) : SxOnlyUserRowsViolated(X, T.probes[i].flux) /\ r.pf[i] = <<"v">>
         THEN {"validate_says_v_where_only_user_rows_are_violated"} ELSE {})
@@ -113,7 +129,7 @@ Next ==
      \A clause \in Clauses(r) :
         PrintT(ToJson([verdict |-> "MISMATCH", tid |-> T.tid, l |-> l + 1, action |-> r.cfg.method,
                        clause |-> clause, tags |-> Tags(r, clause), obsoutcome |-> r.outcome,
-                       fluxes |-> r.cfg.fluxes, P |-> r.cfg.P, via |-> r.cfg.via]))
+                       fluxes |-> r.cfg.fluxes, P |-> r.cfg.P, via |-> r.cfg.via, refusal |-> r.msg]))
   /\ l' = l + 1
   /\ UNCHANGED <<tid, dim, orig>>
 =============================================================================
